@@ -1,7 +1,9 @@
 ---------------------------- MODULE AppRunTrace ----------------------------
 (* Recorded runs of real applications checked against AppRun.  A trace is one event, or two: two runs one after the
    other whose I/Os share one formatter object (whatever the first report leaves on the formatter's style stack is
-   there when the second one is written); each run is decided on its own.  Event:
+   there when the second one is written), or a session: several runs served by ONE application object (one handler
+   object, one set of listeners, whose behaviour follows the environment of the run at hand) - nothing of an earlier run,
+   failed or not, may show in a later status, report or handler invocation; each run is decided on its own.  Event:
      env   the environment (as in AppRun)
      msgs  [pre, l1, l2, l3, handler : [known, lines]]  the message of the exception each source raises in this run
            (known = FALSE: that source raises nothing, or its exception has no printable message)
@@ -34,7 +36,7 @@ Obs == [status |-> E.o.status, escaped |-> E.o.escaped, calls |-> E.o.calls, rep
 What == Eff(E.env).k \o Eff(E.env).v \o "@" \o Src
 
 TRun == /\ l <= Len(T) /\ E.op = "run" /\ Adv
-        /\ Check(tid, l, "H.env", "", E.env.line \in Lines /\ E.env.verb \in 0..3 /\ Len(E.env.listeners) <= 3 /\ E.env.scope \in Scopes)
+        /\ Check(tid, l, "H.env", "", E.env.line \in Lines /\ E.env.verb \in 0..3 /\ Len(E.env.listeners) <= 3 /\ E.env.scope \in Scopes /\ E.env.hroute \in {"object", "factory", "method"})
         /\ Check(tid, l, "P.contained", What, Contained(E.env, Obs))
         /\ Check(tid, l, "P.status.zero", What, ZeroIff(E.env, Obs))
         /\ Check(tid, l, "P.status.clamp", What, Clamped(E.env, Obs))
@@ -45,7 +47,7 @@ TRun == /\ l <= Len(T) /\ E.op = "run" /\ Adv
         /\ LET m == Outcome(E.env) IN
            /\ Note(tid, l, "A.status", E.o.status = m.status /\ E.o.escaped = m.escaped)
            /\ Note(tid, l, "A.calls", E.o.calls = m.calls)
-           /\ Note(tid, l, "A.printed", SomethingPrinted = m.reported)
+           /\ Note(tid, l, "A.printed", SomethingPrinted = (m.reported \/ m.noisy))
 
 TDone == /\ l = Len(T) + 1 /\ l' = l + 1 /\ tid' = tid /\ Accept(tid)
 TNext == TRun \/ TDone
